@@ -47,6 +47,11 @@ func (h Header) ValidateBasic() error {
 	if len(h.Bloom) > types.BloomByteLength {
 		return fmt.Errorf("invalid bloom: have %d bytes, max %d", len(h.Bloom), types.BloomByteLength)
 	}
+	// the block hash commits to a 32 byte state root (ToEthHeader crops or pads any other length), and
+	// the root is stored as given as the consensus state of the header's height: both must be the same bytes
+	if len(h.Root) != common.HashLength {
+		return fmt.Errorf("invalid state root: have %d bytes, want %d", len(h.Root), common.HashLength)
+	}
 	// Verify that the gas limit is <= 2^63-1
 	cap := uint64(0x7fffffffffffffff)
 	if h.GasLimit > cap {
